@@ -211,6 +211,10 @@ int NifFile::Load(std::istream& file, const NifLoadOptions& options) {
 			std::string blockTypeStr = hdr.GetBlockTypeStringById(i);
 
 			auto nifactory = nifactories.GetFactoryByName(blockTypeStr);
+#ifdef NIFLY_VERIF
+			if (verif::g_hooks)
+				verif::g_hooks->Block(true, i, nullptr);
+#endif
 			if (nifactory) {
 				blocks[i] = nifactory->Load(stream);
 			}
@@ -227,6 +231,10 @@ int NifFile::Load(std::istream& file, const NifLoadOptions& options) {
 		}
 
 		hdr.SetBlockReference(&blocks);
+#ifdef NIFLY_VERIF
+		if (verif::g_hooks)
+			verif::g_hooks->Block(true, nBlocks, nullptr);
+#endif
 	}
 	else {
 		Clear();
@@ -1466,11 +1474,19 @@ int NifFile::Save(std::ostream& file, const NifSaveOptions& options) {
 		// Retrieve block sizes from NiStream while writing
 		std::vector<std::streamsize> blockSizes(hdr.GetNumBlocks());
 		for (uint32_t i = 0; i < hdr.GetNumBlocks(); i++) {
+#ifdef NIFLY_VERIF
+			if (verif::g_hooks)
+				verif::g_hooks->Block(false, i, blocks[i].get());
+#endif
 			blocks[i]->Put(stream);
 			blockSizes[i] = stream.GetBlockSize();
 			stream.InitBlockSize();
 		}
 
+#ifdef NIFLY_VERIF
+		if (verif::g_hooks)
+			verif::g_hooks->Block(false, hdr.GetNumBlocks(), nullptr);
+#endif
 		uint32_t endPad = 1;
 		stream << endPad;
 		endPad = 0;
